@@ -208,6 +208,14 @@ func genC13(e *emitter, tier string, seed uint64) {
 			e.note(fmt.Sprintf("tok.explicit-push.%02x", form.op))
 		}
 	}
+	// every direct push 0x01..0x4b with payload bytes that would themselves read as push opcodes if a boundary slipped
+	for l := 1; l <= 75; l++ {
+		d := r.bytes(l)
+		d[l-1] = []byte{0x4c, 0x4d, 0x4e, 0x01, 0x4b}[l%5]
+		sc := append(append([]byte{byte(l)}, d...), 0x75, 0x51)
+		e.run("C13.tok", hex.EncodeToString(sc))
+		e.note("tok.direct-push")
+	}
 	n := 300
 	if !quick {
 		n = 20000
